@@ -277,13 +277,18 @@ Definition nth_obs {A} (i : nat) (l : list (list A)) : list A := nth i l [].
    class explained a difference, an ambiguous fullword regex is present, it explained a difference *)
 (* q_sp: 0, or the class (11, 19, 20) of a per-string finding that explained a difference on this input
    (such a difference may also change the verdicts of the rules that use the string) *)
-Record sres := { q_spec : bool; q_boreal : bool; q_fix : bool; q_amb : bool; q_amb_used : bool; q_sp : N }.
+(* q_oq: libyara's list for some string of this input is not trusted (documented deviation 5 of the
+   oracle, see nested_rep_quirk): the verdicts libyara derives from it are not held against anyone *)
+Record sres := { q_spec : bool; q_boreal : bool; q_fix : bool; q_amb : bool; q_amb_used : bool; q_sp : N; q_oq : bool }.
 Definition mk_sres (sp bo fx am amu : bool) (st : N) : sres :=
-  {| q_spec := sp; q_boreal := bo; q_fix := fx; q_amb := am; q_amb_used := amu; q_sp := st |}.
+  {| q_spec := sp; q_boreal := bo; q_fix := fx; q_amb := am; q_amb_used := amu; q_sp := st; q_oq := false |}.
 Definition sres_ok : sres := mk_sres true true false false false 0.
+Definition sres_oq : sres :=
+  {| q_spec := true; q_boreal := true; q_fix := false; q_amb := false; q_amb_used := false; q_sp := 0; q_oq := true |}.
 Definition sres_and (a b : sres) : sres :=
-  mk_sres (q_spec a && q_spec b) (q_boreal a && q_boreal b) (q_fix a || q_fix b) (q_amb a || q_amb b)
-          (q_amb_used a || q_amb_used b) (N.max (q_sp a) (q_sp b)).
+  {| q_spec := q_spec a && q_spec b; q_boreal := q_boreal a && q_boreal b; q_fix := q_fix a || q_fix b;
+     q_amb := q_amb a || q_amb b; q_amb_used := q_amb_used a || q_amb_used b; q_sp := N.max (q_sp a) (q_sp b);
+     q_oq := q_oq a || q_oq b |}.
 
 (* ---- finding 17 (C07-empty-class, fixed in /repo by 861b829; the predicate is kept for the record and is
    no longer used by the case term): a regex with a bracketed class that denotes the empty set (`[^\w\W]`,
@@ -372,6 +377,28 @@ Definition full_list (s : sdecl) (m : bytes) (y : list (N * N)) : list (N * N) :
                     | None => match list_max (spec_lens s m o) with Some l => l | None => 0 end
                     end)) (spec_offsets_of s m).
 
+(* ---- documented deviation 5 (of the oracle): a regex with a repetition (other than `?`) of a group
+   that contains a repetition of something containing a dot or a class: `/(c( xx.)?)+a11/` on
+   `A cccc xxccca11` — libyara 4.5.5 reports (11,4) only; boreal and Spec/Regex.v report the seven
+   starts 2, 3, 4, 5, 9, 10, 11 (libyara's backward run from the atom `a11` does not take a second
+   iteration of the outer group; with `c` in place of the dot it does).  libyara misses members; its
+   list is not the reference for such a string.  Accepted only when boreal's list conforms exactly
+   to the specification and contains everything libyara lists. *)
+Definition rep_many (k : rkind) : bool := match k with ZeroOrOne => false | _ => true end.
+Definition has_wild (h : hir) : bool :=
+  hsub (fun x => match x with HDot | HClass _ | HMask _ _ _ => true | _ => false end) h.
+Definition nested_rep_quirk (s : sdecl) : bool :=
+  match s with
+  | SRegex n _ _ _ =>
+      hsub (fun x => match x with
+                     | HRep body k _ =>
+                         rep_many k && hsub (fun z => match z with HRep inner _ _ => has_wild inner | _ => false end) body
+                     | _ => false
+                     end) (node_to_hir n)
+  | _ => false
+  end.
+Definition K_ORACLE_NESTED_REP : N := 5.
+
 (* strings of one rule on one input *)
 Fixpoint strings_check (cond : option expr) (m : bytes) (ss : list sdecl) (nl : list N) (gl : list bool) (v : nat)
          (ys bs : list (list (N * N))) : sres :=
@@ -403,6 +430,10 @@ Fixpoint strings_check (cond : option expr) (m : bytes) (ss : list sdecl) (nl : 
         let shape := negb exact && start_position_shape s m (nth v nl 0) y b in
         let altf := negb exact && negb shape && is_pattern s && nth v gl false && reports_non_member s m b in
         let wab := negb exact && negb shape && wide_ascii_boundary s in
+        let oq := negb exact && nested_rep_quirk s && string_spec_ok s m b
+                  && forallb (fun yo => existsb (fun bo => (fst yo =? fst bo)
+                                           && (negb (uniq_len s m (fst yo)) || (snd yo =? snd bo))) b) y in
+        if oq then sres_oq else
         mk_sres (string_spec_ok s m y) (exact || shape || altf || wab) false false false
                 (if wab then K_WIDE_ASCII_WB else if altf then K_ALT_FIRST else if shape then K_START_POS else 0))
   end.
@@ -410,7 +441,8 @@ Fixpoint strings_check (cond : option expr) (m : bytes) (ss : list sdecl) (nl : 
 (* a rule that is not reported (private): its strings cannot be compared; an ambiguous one makes the
    specification's prediction of the rule's verdict unusable on this input *)
 Definition hidden_check (m : bytes) (ss : list sdecl) : sres :=
-  mk_sres true true false (existsb (fun s => fullword_ambiguous s m) ss) false 0.
+  sres_and (mk_sres true true false (existsb (fun s => fullword_ambiguous s m) ss) false 0)
+           (if existsb nested_rep_quirk ss then sres_oq else sres_ok).
 
 (* ------------------------------------------------------------------ verdicts by the specification *)
 Definition to_smatch (ol : N * N) : smatch := {| m_base := 0; m_off := fst ol; m_len := snd ol |}.
@@ -468,7 +500,7 @@ Definition verdicts_agree (yobs bobs : list obs) (bdef : list bool) : bool :=
               yobs bdef.
 
 Definition sres_bad : sres := mk_sres false false false false false 0.
-Definition no_boreal (a : sres) : sres := mk_sres (q_spec a) false false (q_amb a) false 0.
+Definition no_boreal (a : sres) : sres := sres_and (mk_sres (q_spec a) false false (q_amb a) false 0) (if q_oq a then sres_oq else sres_ok).
 
 Fixpoint rules_strings (m : bytes) (rs : list crule) (yobs bobs : list obs) : sres :=
   match rs, yobs, bobs with
@@ -510,7 +542,7 @@ Definition cond_class (rs : list crule) : N :=
   else if existsb high_byte_order cs then K_HIGH_BYTE_ORDER
   else 0.
 
-Definition is_documented (k : N) : bool := (1 <=? k) && (k <=? 4).
+Definition is_documented (k : N) : bool := (1 <=? k) && (k <=? 5).
 
 (* ------------------------------------------------------------------ the case *)
 (* per input: the strings, then (spec verdicts, boreal verdicts).  On an input where an ambiguous
@@ -519,7 +551,7 @@ Definition is_documented (k : N) : bool := (1 <=? k) && (k <=? 4).
 Definition one_input (rs : list crule) (m : bytes) (yobs bobs : list obs) (bdef : list bool)
   : sres * bool * bool :=
   let q := rules_strings m rs yobs bobs in
-  (q, q_amb q || verdicts_spec_ok rs m yobs, verdicts_agree yobs bobs bdef).
+  (q, q_amb q || q_oq q || verdicts_spec_ok rs m yobs, verdicts_agree yobs bobs bdef).
 
 Fixpoint zip_inputs (rs : list crule) (ins : list bytes) (ys bs : list (list obs)) (ds : list (list bool))
   : list (sres * bool * bool) :=
@@ -538,7 +570,7 @@ Definition C07_case (rs : list crule) (ins : list bytes) (ys bs : list (list obs
   let s_ver := forallb (fun r : sres * bool * bool => snd (fst r)) rows in
   (* boreal's verdicts: a difference on an input with an ambiguous fullword regex belongs to class 12,
      on an input where a start was dropped to class 11 *)
-  let b_ver := forallb (fun r : sres * bool * bool => snd r || q_amb (fst (fst r)) || negb (q_sp (fst (fst r)) =? 0)) rows in
+  let b_ver := forallb (fun r : sres * bool * bool => snd r || q_amb (fst (fst r)) || negb (q_sp (fst (fst r)) =? 0) || q_oq (fst (fst r))) rows in
   let kamb := existsb (fun r : sres * bool * bool => q_amb_used (fst (fst r)) || (q_amb (fst (fst r)) && negb (snd r))) rows in
   let ksp := fold_right N.max 0 (map (fun r : sres * bool * bool => q_sp (fst (fst r))) rows) in
   let kc := cond_class rs in
